@@ -17,9 +17,9 @@ RULE = ("Area centre over the signed WGS-84 range, shape circle/rectangle/ellips
         "when both agree outside a 3 % + 2 m band): delivered <=> inside; forwarding per Annex D (inside -> area forwarding for GBC, "
         "none for GAC; outside and source inside with PAI -> discard; else non-area forwarding); oversized -> refused / not forwarded. "
         "Non-trivial = verdict available and (rotated non-circular area whose unrotated verdict differs, or southern/western hemisphere, "
-        "or area size within 2 % of the limit).")
+        "or centre and station on different sides of the antimeridian, or area size within 2 % of the limit).")
 ASSUMPTIONS = [
-    "no verdict inside the tolerance band (3 % of the semi-axes + 2 m), beyond |lat| 85 degrees, or when centre and point are on different sides of the antimeridian",
+    "no verdict inside the tolerance band (3 % of the semi-axes + 2 m), or beyond |lat| 85 degrees; areas that straddle the antimeridian are judged like any other (longitude differences taken the short way round)",
     "the 'sender' of Annex D is the source (single hop from the originator), as the implementation has no previous-hop address",
     "traffic class without SCF so that non-area forwarding means 'transmit'",
 ]
@@ -48,7 +48,7 @@ def case_s():
         "a": _axes(), "b": _axes(),
         "angle": st.one_of(st.sampled_from([0, 45, 90, 135, 180, 270, 359]), st.integers(0, 359)),
         "clat": st.one_of(st.sampled_from([0, 413000000, -337000000, 600000000, -600000000, 849000000]), st.integers(-890000000, 890000000)),
-        "clon": st.one_of(st.sampled_from([0, 21000000, -707000000, 1799000000, -1799000000]), st.integers(-1799990000, 1799990000)),
+        "clon": st.one_of(st.sampled_from([0, 21000000, -707000000, 1799000000, -1799000000, 1799990000, -1800000000, 1799999999]), st.integers(-1800000000, 1799999999)),
         "rho": RHO, "phi": st.integers(0, 359), "side": st.floats(-1, 1).map(lambda x: round(x, 3)),
         "so_rho": RHO, "so_phi": st.integers(0, 359), "so_side": st.floats(-1, 1).map(lambda x: round(x, 3)),
         "pai": st.integers(0, 1),
@@ -102,8 +102,11 @@ def run_case(case):
         v_ego = rg.verdict(shape, a, b, angle, case["clat"], case["clon"], ego[0], ego[1])
         v_unrot = rg.verdict(shape, a, b, 0, case["clat"], case["clon"], ego[0], ego[1])
         rotated_matters = shape != 0 and a != b and angle % 180 != 0 and v_ego is not None and v_unrot is not None and v_ego != v_unrot
-        nontrivial = v_ego is not None and (rotated_matters or case["clat"] < 0 or case["clon"] < 0 or near_limit)
+        straddles = abs(ego[1] - case["clon"]) > 1800000000
+        nontrivial = v_ego is not None and (rotated_matters or case["clat"] < 0 or case["clon"] < 0 or near_limit or straddles)
         labels.append("ego:%s" % v_ego)
+        if straddles:
+            labels.append("ego-across-antimeridian:%s" % v_ego)
         if rotated_matters:
             labels.append("rotation-decides")
         if near_limit:
